@@ -91,7 +91,8 @@ def generate(bdir):
             setup_c = os.path.join(REPO, "src/emu", mdir, "setup.c")
             event_c = os.path.join(REPO, "src/emu", mdir, "event.c")
             body = cc("gen_setup_" + mdir, os.path.join(GEN, "gen_setup.c"),
-                      [f'-DSETUP_C="{setup_c}"', f"-DMODEL_SPEC={spec}"])
+                      [f'-DSETUP_C="{setup_c}"', f"-DMODEL_SPEC={spec}"]
+                      + (["-DHAS_TASK_ENUMS=1"] if mdir in ("nosv", "nanos6") else []))
             if table:
                 body += cc("gen_event_" + mdir, os.path.join(GEN, "gen_event.c"),
                            [f'-DEVENT_C="{event_c}"', f"-DTABLE={table}", f"-DHAS_SET={has_set}"])
